@@ -148,7 +148,7 @@ TrAsyncRemove ==
                    ELSE mismatch
 
 \* transactions of the universe that are valid at some block: what an untraced phase can have admitted
-ValidSomewhere == {t \in TxIds : \E b \in Blocks : Validate(t, LiveAt(b), Num(b)) = "ok"}
+ValidSomewhere == {t \in TxIds : \E b \in Blocks : Admit(t, LiveAt(b), Num(b)) = "ok"}
 
 TrResync ==
     /\ Is("resync")
@@ -176,6 +176,8 @@ TraceSpec == TraceInit /\ [][TraceNext]_tvars
 
 \* conformance: every observation is the specified one
 Conform == mismatch = <<>>
+\* (a panic of a pool call is recovered and logged by the driver as the answer "panic": the specification never gives
+\* that answer, so it is a mismatch here, and the driver reports the panic itself)
 
 \* the properties, on the implementation's logged states
 ImplIndexesAgree == IndexesAgreeOn(impl.pool, impl.cache)
